@@ -529,6 +529,9 @@ func genFor(prop, part string, seed uint64) *Scenario {
 		pf.waitEarlyP = 40
 		pf.clientAddP = 30
 	case "C13":
+		if part == "lines" {
+			return genC13Lines(seed)
+		}
 		if part == "err" {
 			// writers that keep writing across a render error: nothing is written after
 			// the failed cycle, so no Write that starts after it may report success
@@ -851,6 +854,51 @@ func genC05Queue(seed uint64) *Scenario {
 	if sc.Mode == "manual" {
 		sc.FinalRefr = 3
 	}
+	return sc
+}
+
+// genC13Lines: a sequential manual-refresh program (nothing but its own refreshes
+// can start a render cycle): texts handed over in two pieces that do not end at a
+// line boundary, and the very same line written once per cycle above rows that do
+// not change (byte-identical frames).
+func genC13Lines(seed uint64) *Scenario {
+	r := common.NewRng(seed)
+	sc := &Scenario{Fam: "C13/lines", Seed: seed, Q: -1, Width: 120, End: "natural", Policy: r.PickS("none", "light"), Mode: "manual", NoK: true}
+	n := r.Range(0, 3)
+	for i := 0; i < n; i++ {
+		b := simpleBar(int64(r.Pick(10, 100)))
+		b.Filler = r.PickS("nop", "bar")
+		sc.Bars = append(sc.Bars, b)
+	}
+	var ops []Op
+	seq := 0
+	for k := 0; k < r.Range(2, 8); k++ {
+		for j := 0; j < r.Range(1, 3); j++ {
+			line := fmt.Sprintf("~s0:%d:%s~\n", seq, strings.Repeat("q", r.Range(1, 30)))
+			seq++
+			if r.Chance(1, 3) {
+				line += fmt.Sprintf("~s0:%d:second~\n", seq)
+				seq++
+			}
+			op := Op{K: "write", S: line}
+			if r.Chance(2, 3) {
+				op.N = int64(r.Range(1, len(line)-1)) // split point
+			}
+			ops = append(ops, op)
+		}
+		ops = append(ops, Op{K: "rw"})
+		if n > 0 && r.Chance(1, 3) {
+			ops = append(ops, Op{K: "incr", B: r.Intn(n), N: 1}, Op{K: "rw"})
+		}
+	}
+	// heartbeat: the same bytes every cycle, nothing else changes
+	hb := fmt.Sprintf("~s0:hb:%d~\n", r.Intn(10))
+	for k := 0; k < r.Range(2, 9); k++ {
+		ops = append(ops, Op{K: "write", S: hb}, Op{K: "rw"})
+	}
+	ops = append(ops, Op{K: "rw"})
+	sc.Clients = [][]Op{ops}
+	sc.FinalRefr = 2
 	return sc
 }
 
